@@ -333,3 +333,47 @@ def r8_no_cross_call_state(ctx):
 
 
 RULES.append(r8_no_cross_call_state)
+
+
+def r9_from_callable(ctx):
+    """C19.R9: the task definition derived from a callable's signature lists exactly the keyword-bindable parameters, each with *its own*
+    declared type and — if it has one — its own default; positional-only and variadic parameters are in neither.  Decided on a model
+    signature `(first, /, *rest: list, factor: float, label: str = "x", **extra)` (inspect.signature modelled, the rest interpreted)."""
+    from ..terms import ClassRef
+    repo = ctx.repo
+    fi = repo.func(f"{B}.TaskBuilder.from_callable")
+    ctx.analysed(fi.qual)
+    EMPTY = Sym("inspect.Parameter.empty")
+    kinds = {k: Sym(f"inspect.Parameter.{k}") for k in ("POSITIONAL_ONLY", "POSITIONAL_OR_KEYWORD", "VAR_POSITIONAL", "KEYWORD_ONLY", "VAR_KEYWORD")}
+
+    def par(name, kind, ann, default=EMPTY):
+        return Obj("inspect.Parameter", {"name": name, "kind": kinds[kind], "annotation": ann, "default": default}, name=f"param:{name}")
+    params = {"first": par("first", "POSITIONAL_ONLY", "bytes"), "rest": par("rest", "VAR_POSITIONAL", "list"), "factor": par("factor", "KEYWORD_ONLY", "float"),
+              "label": par("label", "KEYWORD_ONLY", "str", "x"), "extra": par("extra", "VAR_KEYWORD", "dict")}
+    sig = Obj("inspect.Signature", {"parameters": params, "return_annotation": "int"}, name="SIG")
+    ip = Interp(repo, call_models={"inspect.signature": lambda run, a, k, n, f: sig, f"{CORE}TaskDefinition.func_enc": lambda run, a, k, n, f: "ENC"},
+                inline=lambda f: f.qual.startswith(fi.qual + "."))
+    paths = ip.explore(fi, args={"cls": ClassRef(f"{B}.TaskBuilder"), "f": Sym("F"), "environment": None})
+    ctx.evals(len(paths))
+    done = False
+    for p in paths:
+        rv = p.exit[1] if p.exit[0] == "return" else None
+        if not isinstance(rv, Obj):
+            continue
+        f_ = {**rv.kwargs, **rv.fields}
+        d = f_.get("definition")
+        schema = ({**d.kwargs, **d.fields}.get("input_schema") if isinstance(d, Obj) else None)
+        skw = f_.get("static_input_kw")
+        done = True
+        if schema != {"factor": "float", "label": "str"} or skw != {"label": "x"}:
+            ctx.violation("C19.R9", fi.qual, loc(fi), "schema of a callable with positional-only / variadic parameters",
+                          f"def f(first: bytes, /, *rest: list, factor: float, label: str = 'x', **extra: dict): input_schema = {vkey(schema)[:120]}, static_input_kw = "
+                          f"{vkey(skw)[:80]}; expected {{'factor': 'float', 'label': 'str'}} and {{'label': 'x'}} — a parameter listed with another parameter's type makes the "
+                          f"builder accept incompatible edges and refuse compatible ones")
+        else:
+            ctx.ok("C19.R9", loc(fi), "from_callable: keyword-bindable parameters only, each with its own type and default")
+    if not done:
+        ctx.undecided("C19.R9", loc(fi), f"from_callable on the model signature: {[(p.exit[0], vkey(p.exit[1])[:60]) for p in paths][:3]}")
+
+
+RULES.append(r9_from_callable)
